@@ -589,13 +589,16 @@ Example raid_rec_col_example_hyps :
   good Cauchy ex_orig ex_col (filter (fun i => (i <? 4)%nat) [1; 3; 4]%nat) /\
   (forall p, (p < 3)%nat -> ~ In (4 + p)%nat [1; 3; 4]%nat -> nth p ex_par_in 0 = spec_col (matN Cauchy) p ex_orig).
 Proof.
-  repeat split; try (cbn; lia).
-  - intros i [<-|[<-|[<-|[]]]]; lia.
-  - unfold bytes, ex_orig. repeat constructor.
-  - unfold bytes, ex_col. repeat constructor.
-  - intros d Hd. cbn in Hd. do 4 (destruct d as [|d]; [try reflexivity; exfalso; apply Hd; tauto|]).
-    destruct d; reflexivity.
-  - intros p Hp Hin. destruct p as [|[|[|p]]]; [exfalso; apply Hin; cbn; tauto| | |lia]; vm_compute; reflexivity.
+  split; [reflexivity|]. split; [lia|]. split; [cbn [rows_of]; lia|]. split; [cbn [length]; lia|].
+  split; [reflexivity|]. split; [intros i [<-|[<-|[<-|[]]]]; lia|]. split; [vm_compute; reflexivity|].
+  split; [|intros p Hp Hin; destruct p as [|[|[|p]]]; [exfalso; apply Hin; right; right; left; reflexivity| | |lia];
+           vm_compute; reflexivity].
+  unfold good. split; [unfold bytes, ex_orig; repeat constructor|].
+  split; [unfold bytes, ex_col; repeat constructor|]. split; [reflexivity|].
+  intros d Hd. change (filter (fun i => (i <? 4)%nat) [1; 3; 4]%nat) with [1; 3]%nat in Hd.
+  destruct d as [|[|[|[|d]]]]; try reflexivity.
+  - exfalso. apply Hd. left. reflexivity.
+  - exfalso. apply Hd. right. left. reflexivity.
 Qed.
 
 (* and one through raid_data with the parities 1 and 2 (the general routine, Vandermonde-free) *)
